@@ -339,6 +339,43 @@ func passCase(r *evid.Run, rg *rand.Rand, i int, cs int64) {
 		rej++
 	}
 	r.Hit("nearmiss_passphrases_rejected", rej)
+	// the parameters are re-marshalled (as a passphrase change or a later save
+	// would) by a key object whose in-memory key is NOT the right one at that
+	// moment -- after a rejected passphrase, and after Zero(): what is stored must
+	// still be bound to the original passphrase only
+	for _, state := range []string{"after a rejected passphrase", "after Zero()"} {
+		var s7 snacl.SecretKey
+		if err := s7.Unmarshal(blob); err != nil {
+			break
+		}
+		wrong := append(append([]byte(nil), orig...), 'x')
+		if state == "after Zero()" {
+			pp := append([]byte(nil), orig...)
+			s7.DeriveKey(&pp)
+			s7.Zero()
+		} else {
+			s7.DeriveKey(&wrong)
+		}
+		blob2 := s7.Marshal()
+		var s8 snacl.SecretKey
+		if err := s8.Unmarshal(blob2); err != nil {
+			r.Violation("unmarshal-error", fmt.Sprintf("parameters re-marshalled %s: %v", state, err), "passphrase", cs, nil)
+			break
+		}
+		pp := append([]byte(nil), orig...)
+		if err := s8.DeriveKey(&pp); err != nil || *s8.Key != keyBytes {
+			r.Violation("right-passphrase-rejected:re-marshalled", fmt.Sprintf("parameters re-marshalled %s no longer accept the exact passphrase: %v", state, err), "passphrase", cs, nil)
+			break
+		}
+		var s9 snacl.SecretKey
+		s9.Unmarshal(blob2)
+		w2 := append(append([]byte(nil), orig...), 'x')
+		if err := s9.DeriveKey(&w2); !errors.Is(err, snacl.ErrInvalidPassword) {
+			r.Violation("wrong-passphrase-accepted:re-marshalled", fmt.Sprintf("parameters re-marshalled %s accept the wrong passphrase %q: err=%v", state, w2, err), "passphrase", cs, nil)
+			break
+		}
+		r.Hit("remarshalled_parameter_blobs_checked", 1)
+	}
 	// malformed parameter blobs: every wrong length
 	ml := 0
 	for l := 0; l <= len(blob)+8; l++ {
